@@ -152,7 +152,7 @@ def check(ctx, tl, text, key, origin, meta=None):
         ctx.case(key, False)
         ctx.count(origin + ':ref_rejects')
         return
-    if work.uncertain(s.ref) or work.skip_known(ctx, text, s.ref):
+    if work.uncertain(s.ref, s.ref_err) or work.skip_known(ctx, text, s.ref):
         ctx.case(key, False)
         return
     nslash = len(s.ref.slash)
@@ -175,7 +175,7 @@ def check(ctx, tl, text, key, origin, meta=None):
                 s2 = work.both(t)
             except RecursionError:
                 return False
-            if s2.ref is None or work.uncertain(s2.ref) or work.skip_known(ctx, t, s2.ref):
+            if s2.ref is None or work.uncertain(s2.ref, s2.ref_err) or work.skip_known(ctx, t, s2.ref):
                 return False
             j = judge(s2.ref, observed_classes(tl.log), s2.tree, s2.impl_err)
             return j is not None and j[0] == mech
